@@ -101,6 +101,115 @@ void h_register_entry_size(void)
   VERIF_CANARY();
 }
 
+/* ---- layer 2: walkers over lists of arbitrary length ---------------------
+ * exact-size heap blocks of symbolic length and arbitrary content */
+size_t g_rb_na, g_rb_ne;
+
+void h_reg_count_areas(void)
+{
+  GHOST_HAVOC();
+  IN(size_t, in_term)                      /* position of a terminator */
+  ASSUME(in_term <= AREA_HANDLE_MAX);
+  RegisterArea *in_list = malloc(sizeof(RegisterArea) * (in_term + 1));
+  ASSUME(in_list != NULL);
+  ASSUME(RB_AREA_IS_END(&in_list[in_term]));
+  g_rb_na = in_term;
+  reg_count_areas(in_list);
+  VERIF_CANARY();
+}
+
+void h_reg_count_entries(void)
+{
+  GHOST_HAVOC();
+  IN(size_t, in_term)
+  ASSUME(in_term <= 0x3ffffff);            /* the block must fit CBMC's largest object */
+  RegisterEntry *in_list = malloc(sizeof(RegisterEntry) * (in_term + 1));
+  ASSUME(in_list != NULL);
+  ASSUME(RB_ENTRY_IS_END(&in_list[in_term]));
+  g_rb_ne = in_term;
+  reg_count_entries(in_list);
+  VERIF_CANARY();
+}
+
+/* a table whose lists have arbitrary length and content (no terminators
+ * needed: the walkers below go by t->areas / t->entries) */
+static RegisterTable *rb_any_table(void)
+{
+  IN(uint16_t, in_areas) IN(uint32_t, in_entries)
+  ASSUME(in_entries <= 0x3ffffff);
+  RegisterArea *in_alist = malloc(sizeof(RegisterArea) * in_areas);
+  RegisterEntry *in_elist = malloc(sizeof(RegisterEntry) * in_entries);
+  RegisterTable *t = malloc(sizeof(RegisterTable));
+  ASSUME(in_alist != NULL && in_elist != NULL && t != NULL);
+  IN(uint16_t, in_tflags)
+  t->flags = in_tflags; t->areas = in_areas; t->entries = in_entries;
+  t->area = in_alist; t->entry = in_elist;
+  return t;
+}
+
+void h_ra_find_area_by_addr(void)
+{
+  GHOST_HAVOC();
+  IN(uint32_t, in_addr)
+  ra_find_area_by_addr(rb_any_table(), in_addr);
+  VERIF_CANARY();
+}
+
+void h_ra_first_entry_of_next(void)
+{
+  GHOST_HAVOC();
+  IN(uint32_t, in_start)
+  ra_first_entry_of_next(rb_any_table(), rb_any_area(), in_start);
+  VERIF_CANARY();
+}
+
+/* the local contract of register_set: one linked register of arbitrary
+ * type / constraint / default at any offset of one memory-backed area of
+ * RB_SZ words, any handle of a table of up to RB_NE registers, any value */
+void h_c04_register_set(void)
+{
+  GHOST_HAVOC();
+  IN(uint32_t, in_entries) IN(uint32_t, in_idx)
+  ASSUME(in_idx < in_entries && in_entries <= RB_NE);
+  RegisterEntry *in_elist = malloc(sizeof(RegisterEntry) * RB_NE);
+  RegisterArea *a = malloc(sizeof(RegisterArea));
+  RegisterTable *t = malloc(sizeof(RegisterTable));
+  RegisterAtom *in_amem = malloc(sizeof(RegisterAtom) * RB_SZ);
+  ASSUME(in_elist != NULL && a != NULL && t != NULL && in_amem != NULL);
+  IN(uint32_t, in_abase) IN(uint16_t, in_aflags) IN(_Bool, in_awrite)
+  for (uint32_t w = 0; w < RB_SZ; w++) {
+    IN(uint16_t, in_aword)
+    in_amem[w] = in_aword;
+  }
+  a->read = reg_mem_read; a->write = in_awrite ? reg_mem_write : NULL;
+  a->flags = in_aflags; a->base = in_abase; a->size = RB_SZ; a->mem = in_amem;
+  for (uint32_t j = 0; j < RB_NE; j++) {   /* no stray pointers in the other entries */
+    in_elist[j].area = a; in_elist[j].name = NULL; in_elist[j].user = NULL;
+  }
+  RegisterEntry *e = &in_elist[in_idx];
+  IN(uint8_t, in_etype) IN(uint64_t, in_edefault) IN(uint32_t, in_eaddr) IN(uint32_t, in_eoffset)
+  IN(uint8_t, in_echeck) IN(uint64_t, in_emin) IN(uint64_t, in_emax)
+  ASSUME(in_etype <= REG_TYPE_FLOAT64 && in_echeck <= REGV_TYPE_CALLBACK);
+  e->type = (RegisterType)in_etype;
+  ASSUME(in_eoffset <= RB_SZ && RB_WORDS(e->type) <= RB_SZ - in_eoffset);
+  e->default_value.u64 = in_edefault; e->address = in_eaddr; e->area = a; e->offset = in_eoffset;
+  e->check.type = (RegisterValidatorType)in_echeck;
+  e->check.arg.range.min.u64 = in_emin; e->check.arg.range.max.u64 = in_emax;
+  if (e->check.type == REGV_TYPE_CALLBACK)
+    e->check.arg.cb = st_validator;
+  IN(uint16_t, in_tflags) IN(uint16_t, in_tareas)
+  t->flags = in_tflags | REG_TF_INITIALISED; t->areas = in_tareas; t->area = a;
+  t->entries = in_entries; t->entry = in_elist;
+  IN(uint8_t, in_vtype) IN(uint64_t, in_vbits)
+  ASSUME(in_vtype <= REG_TYPE_INVALID);
+  RegisterValue v; v.type = (RegisterType)in_vtype; v.value.u64 = in_vbits;
+#if VERIF_IS_NATIVE
+  { IN(uint64_t, in_cb_seed) st_cb_seed = in_cb_seed; }
+#endif
+  register_set(t, in_idx, v);
+  VERIF_CANARY();
+}
+
 /* ---- bounded (tier B) table family ------------------------------------
  * A description has in_na <= RB_NA areas and in_ne <= RB_NE registers, each
  * list closed by its terminator, all in exact-size heap blocks.  Everything
@@ -108,8 +217,6 @@ void h_register_entry_size(void)
  * space), flags, callbacks present or not, addresses, types, constraint
  * kinds and limits, defaults, validator verdicts, table flags. */
 struct rb_ghost g_rb;
-RegisterAtom *g_cell;                 /* ghost word of contracts/registers-typed.h */
-static RegisterAtom rb_elsewhere;    /* a word outside every table object */
 
 struct rb_tab {
   RegisterTable *t;
@@ -206,7 +313,6 @@ static struct rb_tab rb_description(void)
 #endif
   T.t->flags = in_tflags; T.t->areas = in_tareas; T.t->entries = in_tentries;
   T.t->area = T.area; T.t->entry = T.entry;
-  g_cell = &rb_elsewhere;
   return T;
 }
 
